@@ -27,7 +27,7 @@ var mergeOrExtract = map[graphops.Kind]bool{
 func runC08(seed int64, n int, dir string, tier string) *Report {
 	g := gen.New(seed)
 	rep := NewReport("C08", seed)
-	rep.Rule = "n histories of up to 6 operations from a random well-formed list (<=6 nodes, <=7 edges, ids from an 8-name pool plus odd ids); one case per executed step; non-trivial = the list before the step has >=2 nodes and >=1 edge, or the argument list has; distinct by hash of the printed case"
+	rep.Rule = "n histories of up to 6 operations from a random well-formed list (<=6 nodes, <=7 edges, ids from an 8-name pool plus odd ids; in half of the histories not normalised: parallel edges, repeated targets); removals that name no node included; one case per executed step; non-trivial = the list before the step has >=2 nodes and >=1 edge, or the argument list has; distinct by hash of the printed case"
 	cf := &CasesFile{Imports: "Model.Base Model.Graph Corr.CheckC08", Type: "case08", Eval: "mismatches"}
 	for h := 0; h < n; h++ {
 		sh := gen.Shape{MaxNodes: 6, MaxEdges: 7, WellFormed: true, Richness: 0.3, OddIDs: 0.06}
@@ -35,6 +35,15 @@ func runC08(seed int64, n int, dir string, tier string) *Report {
 			sh.Richness = 0.9
 		}
 		cur := g.NodeList(sh)
+		if len(cur.Edges) > 0 && g.Chance(0.5) {
+			// well-formed but not normalised, as AddEdge and RelateNodeListAtID can leave a list: a second
+			// edge with the same source and type sharing a target, and a repeated target
+			e := cur.Edges[g.Int(len(cur.Edges))]
+			if len(e.To) > 0 {
+				cur.Edges = append(cur.Edges, &sbom.Edge{Type: e.Type, From: e.From, To: []string{e.To[0], e.To[len(e.To)-1]}})
+				e.To = append(e.To, e.To[0])
+			}
+		}
 		steps := 1 + g.Int(6)
 		for s := 0; s < steps; s++ {
 			op := graphops.Random(g, cur, graphops.AllKinds, sh)
